@@ -647,7 +647,7 @@ def run(ctx, load):
             ('Table', 'Table_Clear', 'Table_Clear', None, ('nitems', 'nslots'), 'every key and value is destructed once, then the store is freed and the counts reset'),
             ('Table', P.slot('Table', 'New', 'destruct'), 'Table_Del', None, (), 'every key and value is destructed once, then the store is freed'),
             ('List', 'List_Clear', 'List_Clear', None, ('nitems', 'head', 'tail'), 'every element is destructed once before its block is freed; count and ends reset'),
-            ('Tree', 'Tree_Clear_Entry', 'Tree_Clear_Entry', lambda M: [absmodel.SELF, M.atoms[('elem', 'self', 0, 'root')]], (), 'every key and value is destructed once before its node is freed'),
+            ('Tree', 'Tree_Clear_Entry', 'Tree_Clear_Entry', lambda M: [absmodel.SELF, M.atoms[('elem', 'self', 0, 'root')]] if M.atoms[('elem', 'self', 0, 'root')] else None, (), 'every key and value is destructed once before its node is freed (called on the root of every non-empty tree; the empty tree is the caller\'s case, see Tree_Clear)'),
             ('List', P.slot('List', 'New', 'destruct'), 'List_Del:delegates', None, (), 'the destructor destructs every element once and frees every block'),
             ('Tree', P.slot('Tree', 'New', 'destruct'), 'Tree_Del:delegates', None, (), 'the destructor destructs every key and value once and frees every node'),
             ('Tree', 'Tree_Clear', 'Tree_Clear', None, ('nitems', 'root'), 'clears from the root, then resets count and root')):
